@@ -591,6 +591,47 @@ pub fn check_c13(case: &Case, st: &mut Stats) -> Verdict {
                     Err(m) => return fail(m, &full[..t]),
                 }
             }
+            // the same verdicts through a source that serves short and interrupted reads (the
+            // trailer may arrive in pieces that end anywhere, e.g. one byte before the end of the file)
+            for cut in [0usize, 1, 2, 3, 21, 22, 23] {
+                if cut > full.len() {
+                    continue;
+                }
+                let s = &full[..full.len() - cut];
+                let want = decode::trailer_valid(s);
+                let env = crate::env::Env::new(c.env.clone());
+                let mut tx = crate::exec::Tx::new(env.clone());
+                let bytes = s.to_vec();
+                crate::exec::guarded(&mut tx, |tx| {
+                    let _ = crate::exec::open_reader(tx, bytes);
+                });
+                st.c.merge(&env.counters());
+                st.evaluations += 1;
+                let got = tx.recs.first().map(|r| r.res.clone());
+                let ok = match &got {
+                    Some(Res::Meta { .. }) => want,
+                    Some(Res::Err(_)) => !want,
+                    _ => false,
+                };
+                if !ok {
+                    let mut plan = c.env.clone();
+                    plan.faults.clear();
+                    return Some((
+                        Violation::new(
+                            "C13",
+                            "open-through-short-reads",
+                            format!(
+                                "a {}-byte string that {} in a complete trailer, opened through a source serving short/interrupted reads: {}",
+                                s.len(),
+                                if want { "ends" } else { "does not end" },
+                                got.map(|g| g.short()).unwrap_or_default()
+                            ),
+                        ),
+                        None,
+                    ));
+                }
+                st.c.inc("open.through_simulated_source");
+            }
             // every short suffix of the finished file (a trailer that lost bytes at its front)
             for l in 0..=full.len().min(30) {
                 st.evaluations += 1;
